@@ -66,6 +66,7 @@ type shpModel struct {
 	rdPos int
 	// problems found by the modelled library, by rule
 	problems map[string][]string
+	taint    string // set when a call of the scenario in progress could not be interpreted
 	nextVal  int
 	errV     oval
 }
@@ -74,6 +75,9 @@ var shpTypeOfConst = map[int64]string{0: "Null", 1: "Point", 3: "PolyLine", 5: "
 
 func (s *shpModel) problem(rule, format string, a ...interface{}) {
 	msg := fmt.Sprintf(format, a...)
+	if rule == "?" && s.taint == "" {
+		s.taint = msg
+	}
 	for _, m := range s.problems[rule] {
 		if m == msg {
 			return
@@ -750,6 +754,10 @@ func shpTypeName(t types.Type) string {
 func (s *shpModel) readBack(written oval, geomType int64) oval {
 	st := shapeStruct(written)
 	if st == nil {
+		if isTop(written) {
+			s.problem("?", "the shape handed to the shapefile writer is %s", showVal(written))
+			return written
+		}
 		s.problem("C16.R1", "a %s is handed to the shapefile writer", showVal(written))
 		return oIface{}
 	}
@@ -1325,9 +1333,16 @@ func compareGeom(tn, wantType string, got oval, want, orig [][]oBoxPt) *shpGeomV
 type shpFacet struct {
 	bad, unk string
 	pos      token.Pos
+	taint    *string // why the scenario in progress is no longer a faithful run (shared by all facets)
 }
 
+// setBad records a violation — unless part of the scenario could not be interpreted: what the
+// model then sees (a file half written, a value never stored) says nothing about the code.
 func (f *shpFacet) setBad(format string, a ...interface{}) {
+	if f.taint != nil && *f.taint != "" {
+		f.setUnk("%s — not decided, because part of this scenario could not be interpreted: %s", fmt.Sprintf(format, a...), *f.taint)
+		return
+	}
 	if f.bad == "" {
 		f.bad = fmt.Sprintf(format, a...)
 	}
@@ -1406,7 +1421,7 @@ func c16model(c *Ctx, p *pkgT) {
 	facets := map[string]*shpFacet{}
 	facet := func(k string) *shpFacet {
 		if facets[k] == nil {
-			facets[k] = &shpFacet{}
+			facets[k] = &shpFacet{taint: &s.taint}
 		}
 		return facets[k]
 	}
@@ -1416,9 +1431,13 @@ func c16model(c *Ctx, p *pkgT) {
 		if why == "" {
 			for _, r := range res {
 				if t, isTop := r.(oTop); isTop {
-					return res, "result " + showVal(t)
+					why = "result " + showVal(t)
+					break
 				}
 			}
+		}
+		if why != "" && !strings.HasPrefix(why, "panic:") && s.taint == "" {
+			s.taint = f.Name() + ": " + why
 		}
 		return res, why
 	}
@@ -1501,7 +1520,7 @@ func c16model(c *Ctx, p *pkgT) {
 		decT := s.mkStruct("Out"+tn, decFields)
 		geoms, want, orig, wantType := s.shapesFor(tn, fc.layout == 2)
 		s.files = map[string]*shpFile{}
-		s.problems = map[string][]string{}
+		s.problems, s.taint = map[string][]string{}, ""
 		fname := strVal(strT, "out/"+tn)
 		arche := s.zeroRecord(encT)
 		arche.fields["Shape"] = s.it.zero(geomTypes[tn])
@@ -1725,7 +1744,7 @@ func c16model(c *Ctx, p *pkgT) {
 		rowsF := facet("rows:fields")
 		geoms, want, orig, wantType := s.shapesFor(tn, false)
 		s.files = map[string]*shpFile{}
-		s.problems = map[string][]string{}
+		s.problems, s.taint = map[string][]string{}, ""
 		ft := s.shpType("Field")
 		fields := s.m.sliceOf(types.NewSlice(ft), []oval{s.fieldValue('N', "id", 10, 0), s.fieldValue('C', "Name", 50, 0), s.fieldValue('F', "val", 30, 10)})
 		res, why := call(newEncF, nil, strVal(strT, "out/fields.shp"), oInt(5), fields)
